@@ -15,7 +15,7 @@
    Python oracle only.  Statements only; each closed by a lemma of P_Discovery. *)
 From PyDcop Require Import Base Net M_Discovery P_Discovery.
 From PyDcop Require Import P_Discovery2 P_Discovery2A P_Discovery2R P_Discovery2C P_Discovery2T.
-From PyDcop Require Import P_Discovery3C.
+From PyDcop Require Import P_Discovery3C P_Discovery3T P_Discovery3N.
 
 (* In-flight invariant (DESIGN: disc_inv), computations: in every configuration reached, for
    subscriber a and every computation c the directory lists on g: either the last notification
@@ -323,3 +323,168 @@ Example c20_comp3_nonvacuous :
   zlookup 0 (d_comps (n_disc (w_st (nodes cf 2)))) = Some 1 /\
   In (EvCb 2 8 2 1 None) (snd (exec (disc_proto okc3_h) (run_from okc3_h w1_ns []) okc3_sched)).
 Proof. vm_compute. repeat split; auto 10. Qed.
+
+(* ---------------------------------------------------------------------- exact callback lists, all kinds.
+   [iscb k x] selects the callback events of kind k about item x; [cbs_of x table] is the list of
+   registrations (callback, one_shot) for x in registration order.  Each theorem: ANY configuration
+   satisfying [wfcf] (= every reachable one, [callbacks_wf_reachable]), ANY action, ANY node n > 0:
+   if the step changes n's entry in the stated way, the step's events of that kind about the item are
+   EXACTLY one invocation per registration, in registration order (for agents: the per-agent
+   registrations, then the '*' ones), and the table afterwards is as stated. *)
+Theorem callbacks_wf_reachable : forall (h : hist_t) (cf : config nst msg),
+  reachable (disc_proto h) cf -> wfcf cf.
+Proof. exact wfcf_reachable. Qed.
+
+Theorem callbacks_trace_agent_added : forall (h : hist_t) (cf : config nst msg) (act : action) (n : Z),
+  0 < n -> wfcf cf ->
+  let P := disc_proto h in
+  let d := n_disc (w_st (nodes cf n)) in
+  let d' := n_disc (w_st (nodes (fst (step P cf act)) n)) in
+  forall x ad, zlookup x (d_agents d') = Some ad -> zlookup x (d_agents d) <> Some ad ->
+  filter (iscb 1 x) (snd (step P cf act))
+    = fire (d_own d) 1 x (Some ad) (cbs_of x (d_acbs d)) ++ fire_all (d_own d) 1 x (Some ad) (d_allcbs d) /\
+  zlookup x (d_acbs d') = option_map drop_oneshot (zlookup x (d_acbs d)) /\ d_allcbs d' = d_allcbs d.
+Proof. exact trace_agent_added. Qed.
+
+Theorem callbacks_trace_agent_removed : forall (h : hist_t) (cf : config nst msg) (act : action) (n : Z),
+  0 < n ->
+  let P := disc_proto h in
+  let d := n_disc (w_st (nodes cf n)) in
+  let d' := n_disc (w_st (nodes (fst (step P cf act)) n)) in
+  forall x, zlookup x (d_agents d) <> None -> zlookup x (d_agents d') = None ->
+  filter (iscb 2 x) (snd (step P cf act))
+    = fire (d_own d) 2 x None (cbs_of x (d_acbs d)) ++ fire_all (d_own d) 2 x None (d_allcbs d) /\
+  zlookup x (d_acbs d') = option_map drop_oneshot (zlookup x (d_acbs d)) /\ d_allcbs d' = d_allcbs d.
+Proof. exact trace_agent_removed. Qed.
+
+(* computation_removed: the value passed is the agent named by the notification (None, or the agent the
+   subscriber listed); QUIRK: a notification leaves the callback table alone -- one-shot callbacks are
+   not discarded -- whereas the node's own unregister_computation forgets every callback of c *)
+Theorem callbacks_trace_computation_removed : forall (h : hist_t) (cf : config nst msg) (act : action) (n : Z),
+  0 < n -> wfcf cf ->
+  let P := disc_proto h in
+  let d := n_disc (w_st (nodes cf n)) in
+  let d' := n_disc (w_st (nodes (fst (step P cf act)) n)) in
+  forall c k, zlookup c (d_comps d) = Some k -> zlookup c (d_comps d') = None ->
+  exists val, (val = None \/ val = Some k) /\
+    filter (iscb 4 c) (snd (step P cf act)) = fire (d_own d) 4 c val (cbs_of c (d_ccbs d)) /\
+    (cbs_of c (d_ccbs d') = [] \/ d_ccbs d' = d_ccbs d).
+Proof. exact trace_computation_removed. Qed.
+
+Theorem callbacks_trace_replica_added : forall (h : hist_t) (cf : config nst msg) (act : action) (n : Z),
+  0 < n ->
+  let P := disc_proto h in
+  let d := n_disc (w_st (nodes cf n)) in
+  let d' := n_disc (w_st (nodes (fst (step P cf act)) n)) in
+  forall r g, In g (get_or_nil r (d_reps d')) -> ~ In g (get_or_nil r (d_reps d)) ->
+  filter (iscb 5 r) (snd (step P cf act)) = fire (d_own d) 5 r (Some g) (cbs_of r (d_rcbs d)) /\
+  zlookup r (d_rcbs d') = option_map drop_oneshot (zlookup r (d_rcbs d)).
+Proof. exact trace_replica_added. Qed.
+
+(* replica_removed: either no callback at all (the node's own unsubscribe_replica(r) forgets the
+   replicas of r silently) or exactly one invocation per registration; QUIRK: the table is left alone *)
+Theorem callbacks_trace_replica_removed : forall (h : hist_t) (cf : config nst msg) (act : action) (n : Z),
+  0 < n ->
+  let P := disc_proto h in
+  let d := n_disc (w_st (nodes cf n)) in
+  let d' := n_disc (w_st (nodes (fst (step P cf act)) n)) in
+  forall r g, In g (get_or_nil r (d_reps d)) -> ~ In g (get_or_nil r (d_reps d')) ->
+  filter (iscb 6 r) (snd (step P cf act)) = [] \/
+  (filter (iscb 6 r) (snd (step P cf act)) = fire (d_own d) 6 r (Some g) (cbs_of r (d_rcbs d)) /\
+   d_rcbs d' = d_rcbs d).
+Proof. exact trace_replica_removed. Qed.
+
+(* ORDER of callbacks of different kinds inside one handler (whole event list, any Discovery state).
+   publish_computation(c, g, addr), not refused: agent_added for g (if the address makes g known: per-agent
+   registrations, then '*'), THEN computation_added for c. *)
+Theorem callbacks_order_publish_computation : forall s c g addr,
+  is_none addr && negb (zmemk g (d_agents s)) = false ->
+  snd (fst (disc_recv s (MPubComp c g addr))) =
+    (match addr with
+     | Some ad => if zmemk g (d_agents s) then [] else agent_added_evs s g ad
+     | None => []
+     end) ++ (if option_eqb Z.eqb (zlookup c (d_comps s)) (Some g) then [] else comp_added_evs s c g).
+Proof. exact publish_computation_order. Qed.
+
+(* unpublish_agent(y): computation_removed (value y) for every non-technical computation listed on y, in
+   table order, THEN agent_removed for y (per-agent registrations, then '*'); no exception; the
+   computation callback table is untouched (quirk), the agent table loses its one-shot entries; the
+   computation table loses exactly the non-technical computations listed on y *)
+Theorem callbacks_order_unpublish_agent : forall s y, nodupk (d_comps s) ->
+  let r := disc_recv s (MUnpubAgent y) in
+  snd r = None /\
+  snd (fst r) = cascade_evs s y ++ (if zmemk y (d_agents s) then agent_removed_evs s y else []) /\
+  d_ccbs (fst (fst (fst r))) = d_ccbs s /\
+  d_acbs (fst (fst (fst r))) = (if zmemk y (d_agents s) then table_after y (d_acbs s) else d_acbs s) /\
+  (forall c, zlookup c (d_comps (fst (fst (fst r))))
+             = if (0 <=? c) && option_eqb Z.eqb (zlookup c (d_comps s)) (Some y) then None else zlookup c (d_comps s)).
+Proof. exact unpublish_agent_order. Qed.
+
+(* the one-shot quirk is observable: a ONE-SHOT callback fires for computation_removed, survives, and
+   fires again for the next computation_added (only then is it discarded) *)
+Example oneshot_survives_removal :
+  let cf := run_from q_h w1_ns q_sched in
+  quietb cf w1_ns = true /\
+  snd (exec (disc_proto q_h) (run_from q_h w1_ns []) q_sched) = [EvCb 2 7 4 0 None; EvCb 2 7 3 0 (Some 1)] /\
+  zlookup 0 (d_ccbs (n_disc (w_st (nodes cf 2)))) = Some [].
+Proof. vm_compute. repeat split; auto. Qed.
+
+(* ---------------------------------------------------------------------- agreement AFTER REMOVAL.
+   Full statement: "a subscribed to c, the directory does not list c, nothing travels => a does not list c":
+   false of the model in general ([removal_agreement_refuted]).  It holds along every schedule on which the
+   single-step guard [GN] holds: the address guard of the computation theorems, and for a delivery to the
+   directory
+     GN1  not: subscribe_computation(c) from a arrives while the directory does not list c and the replay
+          [rx] of the notifications pending towards a on a's entry for c is not empty (and no publication of
+          c by a travels) -- the directory records the subscription and answers nothing, a's stale entry stays
+          (this is exactly what happens in the refutation witness: [removal_guard_needed]);
+     GN2  not: an un-publication of c naming the host g' arrives while a is subscribed and a's replayed entry
+          names another agent -- a's handler would raise ValueError and keep its entry.
+   [rx] is the EXACT replay (P_Discovery3N.txc): value, removal, removal refused because it names another
+   agent, cascade of unpublish_agent.  Partial: (a) non-technical computations (c >= 0) -- the technical
+   computations of an agent are removed by the cascade inside Directory.unregister_agent, not followed here;
+   (b) GN1 is shown necessary by the witness, GN2 is only shown sufficient (no run violating GN2 alone with a
+   stale entry at quiescence is known; it may be derivable from GN1 and the address guard). *)
+Theorem disc_removal_inv_partial : forall (h : hist_t) (a : Z) (ns : list node) (sched : list (@action)),
+  0 < a -> In 0 ns -> In a ns ->
+  let P := disc_proto h in
+  let cf0 := fst (exec P (init P) (map (@Start) ns)) in
+  along h (GN h a) cf0 sched ->
+  Base a (fst (exec P cf0 sched)) /\ IN a (fst (exec P cf0 sched)).
+Proof. exact disc_removal_inv_l. Qed.
+
+Theorem disc_removal_converges_partial : forall (h : hist_t) (a : Z) (ns : list node) (sched : list (@action)),
+  0 < a -> In 0 ns -> In a ns ->
+  let P := disc_proto h in
+  let cf0 := fst (exec P (init P) (map (@Start) ns)) in
+  along h (GN h a) cf0 sched ->
+  let cf := fst (exec P cf0 sched) in
+  forall c, 0 <= c ->
+    In a (sm_get c (g_sub_comps (n_dir (w_st (nodes cf 0))))) ->
+    zlookup c (g_comps (n_dir (w_st (nodes cf 0)))) = None ->
+    chan cf 0 a = [] -> chan cf a 0 = [] ->
+    zlookup c (d_comps (n_disc (w_st (nodes cf a)))) = None.
+Proof. exact disc_removal_converges_l. Qed.
+
+Theorem removal_guard_check_sound : forall h a sched cf,
+  alongb h (GNb h a) cf sched = true -> along h (GN h a) cf sched.
+Proof. intros h a. apply alongb_sound. apply GNb_sound. Qed.
+
+(* the witness of removal_agreement_refuted satisfies the address guard but violates GN (at the step where
+   the directory records agent 1's subscription for a computation it no longer lists) *)
+Example removal_guard_needed :
+  guard_alongb w2_h (run_from w2_h w1_ns []) w2_sched = true /\
+  alongb w2_h (GNb w2_h 1) (run_from w2_h w1_ns []) w2_sched = false.
+Proof. vm_compute. auto. Qed.
+
+(* non-vacuity: every hypothesis (guard checked along the whole schedule, quiescent, subscribed, not
+   listed) and the conclusion; the removal fired computation_removed at the subscriber *)
+Example c20_removal_nonvacuous :
+  alongb okn_h (GNb okn_h 2) (run_from okn_h w1_ns []) okn_sched = true /\
+  let cf := run_from okn_h w1_ns okn_sched in
+  quietb cf w1_ns = true /\
+  In 2 (sm_get 0 (g_sub_comps (n_dir (w_st (nodes cf 0))))) /\
+  zlookup 0 (g_comps (n_dir (w_st (nodes cf 0)))) = None /\
+  zlookup 0 (d_comps (n_disc (w_st (nodes cf 2)))) = None /\
+  snd (exec (disc_proto okn_h) (run_from okn_h w1_ns []) okn_sched) = [EvCb 2 7 3 0 (Some 1); EvCb 2 7 4 0 None].
+Proof. vm_compute. repeat split; auto. Qed.
